@@ -9,7 +9,7 @@
 From Coq Require Import List ZArith Bool Lia.
 From RtoscV Require Import Pretty.Tok Pretty.FloatFmt Pretty.PrintModel Pretty.ScanModel
   Pretty.PrettyProofs Pretty.RangeProofs Pretty.RunProofs Pretty.ListProofs Pretty.ArrayProofs.
-From RtoscV Require Import Save.PrintStage.
+From RtoscV Require Import Save.PrintStage Save.PrintTotal.
 From RtoscV Require Import Save.TopoModel Save.SaveModel.
 Import ListNotations.
 Local Open Scope Z_scope.
@@ -300,6 +300,30 @@ Proof.
     assert (Hexp : expand [av_of x] = Some [av_of x]) by (destruct x as [z|z|b|[|]|s|s]; reflexivity).
     destruct x as [z|z|b|[|]|s|s]; cbn [av_of] in *; rewrite Hexp; cbn [map_opt' scalar_of];
       destruct l; cbn in *; subst; reflexivity.
+Qed.
+
+(* the printer's model is total on the lines of the class, compression on or off
+   (Save/PrintTotal.v: the array loop with the range conversion never takes a path the
+   model does not cover) *)
+Theorem good_line_prints : forall l,
+  lossless o = true -> good_line l -> exists t w, print_message o (l_path l) (line_avs l) 0 = Some (t, w).
+Proof.
+  intros l Hl [Haddr Hg]. destruct (l_array l) eqn:Harr.
+  - destruct Hg as (Hne & Hel & Hnz & Hh & Hlen).
+    assert (Hgv : Forall (goodv o) (map av_of (l_vals l))).
+    { apply Forall_forall. intros v Hv. apply in_map_iff in Hv as (x & <- & Hx).
+      apply av_of_goodv; [exact Hl|]. exact (proj1 (Forall_forall _ _) Hel x Hx). }
+    destruct (zero_choice o _ Hgv Hnz) as (zf & zd & Hz & Hgc).
+    unfold line_avs. rewrite Harr.
+    apply (array_message_prints_any o zf zd _ _ (map av_of (l_vals l)) Hz Hgc).
+    rewrite map_length. exact Hlen.
+  - destruct Hg as (x & Hv & _). exact (scalar_line_prints l x Harr Hv).
+Qed.
+
+(* C12_good_line_reads: no premise about the printer is left *)
+Theorem good_line_reads_total : forall l, lossless o = true -> good_line l -> line_reads l.
+Proof.
+  intros l Hl Hg. apply good_line_reads; [exact Hl | exact Hg|]. intros _. exact (good_line_prints l Hl Hg).
 Qed.
 
 (* ---- lines do not interfere ----------------------------------------------------------------- *)
